@@ -1,5 +1,6 @@
 import TnVerif.Model.Cross
 import TnVerif.Lemmas.RoundTTBridge
+import TnVerif.Lemmas.OrthSweep
 /-! Cross-approximation: the interfaces are partial products of the argument tensor along the index sets. -/
 open Finset
 namespace TN
@@ -9,11 +10,6 @@ variable {R : Type} [CommRing R]
 def llevels (l : List (Mode R × (Nat → Nat))) : List (Nat × (Nat → Nat)) := l.map fun x => (x.1.n, x.2)
 /-- the `(R_{j+1}, local_j)` levels of a chain with pivots, as `rsetsOf` consumes them -/
 def rlevels (l : List (Mode R × Nat × (Nat → Nat))) : List (Nat × (Nat → Nat)) := l.map fun x => (x.2.1, x.2.2)
-
-/-- right bond of a reversed chain whose left boundary rank is `p` -/
-def topRankP (p : Nat) : List (Mode R) → Nat
-  | [] => p
-  | m :: _ => m.rr
 
 /-- reversed chain (latest mode first) with matching ranks and left boundary rank `p` (`p = R` for an argument tensor whose first
     core is a CP factor of rank `R`: cross.py:118 `linterfaces[0] = ones(1, t.ranks_tt[0])`) -/
